@@ -3,6 +3,35 @@
 import json, os
 ROOT = os.path.dirname(os.path.dirname(os.path.abspath(__file__)))
 CHECKS = {
+ 'C07': dict(
+    text='Bounded symbolic execution of the real database operations (assert_fact, asserta/assertz/retract/retractall builtins, clear, '
+         'query) as ONE step from an ARBITRARY state: p/1, q/2, f/0 filled with 0..2 (thorough 0..3) facts with symbolic integer arguments; '
+         'the operation, its target (incl. a never-asserted predicate), the pattern (variable/constant/alias per argument), the goal form '
+         '(direct or held in a bound variable), the abandonment point k and mode (close/drop) are symbolic; answers and the read-back of every '
+         'predicate equal a list model on every path. Thorough adds two-step histories partitioned on the op pair.',
+    note='One step from an arbitrary state covers histories inductively under the assumption that the store is a function of its contents '
+         '(the aliasing exceptions are C14); asserted facts are ground here (C13 covers non-ground); bounded state size.',
+    tech='symbolic execution of the fact-store operations (CrossHair+z3) vs list model, one inductive step', ref='2 C07'),
+ 'C13': dict(
+    text='Bounded symbolic execution of assertz + fact look-up where the asserted term\'s variables are bound by real unify generators before '
+         '(<=2) and after (<=1) the assertion in a symbolic order and shape, then the stored fact is used twice in a conjunction with symbolic '
+         'patterns, inside or outside the asserting context; every answer (patterns, pattern variables, and the asserting clause\'s variables) '
+         'equals the reference copy semantics (store the dereferenced term, fresh variables per use).',
+    note='Bounded: 5 term templates, small binding/pattern alphabets (listed in evidence), one stored fact; refprolog is the oracle.',
+    tech='symbolic execution of assert/match under symbolic binding histories (CrossHair+z3) vs reference copy semantics', ref='2 C13'),
+ 'C14': dict(
+    text='Bounded symbolic execution of a symbolic schedule (length 4, thorough 5) interleaving steps of a suspended p(X) enumeration and a '
+         'suspended retract(p(Y)) enumeration with asserta/assertz/retract-once/retractall on the same predicate (symbolic constants, 0..2 '
+         'symbolic initial facts); every answer or exhaustion and the final contents equal a snapshot (logical update view) model.',
+    note='Bounded schedule length and state size; an enumeration takes its snapshot at its first step; one enumeration of each kind.',
+    tech='symbolic execution of interleaved generator schedules (CrossHair+z3) vs snapshot model', ref='2 C14'),
+ 'C15': dict(
+    text='Bounded symbolic execution of get_value/to_python (and findall/3) on answer terms whose variables were bound by real unify generators '
+         'in a symbolic ORDER and shape (<=3 bindings V_w = v|int|f(v|int) over 3 variables, outer-first, inner-first, chains); at the innermost '
+         'point the Python value, the absence of live variables in the returned structure and its validity after backtracking equal a '
+         'reference dereferencing.',
+    note='Bounded: 5 answer templates, <=3 bindings, names concrete; cyclic-term cases skipped.',
+    tech='symbolic execution of dereferencing under symbolic binding orders (CrossHair+z3) vs reference substitution', ref='2 C15'),
  'C01': dict(
     text='Bounded symbolic execution (CrossHair/z3) of YP.query over the Python that the current compiler generates for a listed '
          'family of 14 program skeletons (joins, repeated and nested head variables, 0-arity rules, anonymous variables, lists and '
